@@ -92,33 +92,33 @@ def t_template(kind, with_lookup=True):
             raise Unsupported('state_method_template.base_state_method no longer exists')
         fn = SFunc(fi, [{'name': name}], None, None)
         out = framed(it, 'template:frame', [(c.read(chart, 'temp'), 'fun')], lambda: run_body(it, fn, [chart, e]))
-        c.prove('template[%s]:post/returns-normally' % kind, out.raised is None, tags=('C17',))
+        c.prove('template[%s]:post/returns-normally' % kind, out.raised is None, tags=('C17', 'C02'))
         if out.raised is not None:
             return
         res = c.to_int(out.value) if out.value is not None else z3.IntVal(-1)
         tf = c.hget(c.read(chart, 'temp'), 'fun')
         c.prove('template[%s]:callback/registered-callback-runs-exactly-once-nothing-else-runs' % kind,
-                z3.If(has_cb, z3.BoolVal(len(calls) == 1), z3.BoolVal(len(calls) == 0)), tags=('C17',))
+                z3.If(has_cb, z3.BoolVal(len(calls) == 1), z3.BoolVal(len(calls) == 0)), tags=('C17', 'C02'))
         if len(calls) == 1:
             fv, args = calls[0]
-            c.prove('template[%s]:callback/it-is-the-one-registered-for-this-state-and-signal' % kind, fv == cb, tags=('C17',))
+            c.prove('template[%s]:callback/it-is-the-one-registered-for-this-state-and-signal' % kind, fv == cb, tags=('C17', 'C02'))
             okargs = z3.If(is_method, z3.BoolVal(len(args) == 1 and c.to_ref(args[-1]).eq(e.e)),
                            z3.BoolVal(len(args) == 2 and c.to_ref(args[0]).eq(chart.e) and c.to_ref(args[-1]).eq(e.e)))
-            c.prove('template[%s]:callback/called-with-chart-and-event' % kind, okargs, tags=('C17',))
+            c.prove('template[%s]:callback/called-with-chart-and-event' % kind, okargs, tags=('C17', 'C02'))
             path = c.trace[-1] if c.trace else ''
             outcome = [d for d in c.decisions][-1] if c.decisions else 0
         # the handler table of DESIGN 5.2 with parent(s) := PR[name]
         declined = z3.Or(z3.Not(has_cb), z3.BoolVal(len(calls) == 1 and c.pyghost.get('last_cb') == 'unhandled'))
         c.prove('template[%s]:table/names-its-parent-when-nothing-answers' % kind,
-                z3.Implies(z3.Not(has_cb), z3.And(res == st['SUPER'], tf == parent)), tags=('C17',))
+                z3.Implies(z3.Not(has_cb), z3.And(res == st['SUPER'], tf == parent)), tags=('C17', 'C02'))
         c.prove('template[%s]:table/never-returns-unhandled-or-none' % kind,
-                z3.And(res != st['UNHANDLED'], res >= 1), tags=('C17',))
+                z3.And(res != st['UNHANDLED'], res >= 1), tags=('C17', 'C02'))
         c.prove('template[%s]:table/super-always-comes-with-the-parent' % kind,
-                z3.Implies(res == st['SUPER'], tf == parent), tags=('C17',))
+                z3.Implies(res == st['SUPER'], tf == parent), tags=('C17', 'C02'))
         c.prove('template[%s]:table/a-transition-keeps-the-callbacks-target' % kind,
-                z3.Implies(res == st['TRAN'], z3.And(has_cb, tf == target)), tags=('C17',))
+                z3.Implies(res == st['TRAN'], z3.And(has_cb, tf == target)), tags=('C17', 'C02'))
         c.prove('template[%s]:table/handled-leaves-temp-alone' % kind,
-                z3.Implies(res == st['HANDLED'], z3.And(has_cb, tf == tf_before)), tags=('C17',))
+                z3.Implies(res == st['HANDLED'], z3.And(has_cb, tf == tf_before)), tags=('C17', 'C02'))
         c.cover('template[%s]:cover' % kind)
     return Target('template[%s]%s' % (kind, '' if with_lookup else '[no-callback-registered-on-the-chart]'), run, ['hsm.state_method_template', 'hsm.state_method_template.base_state_method',
                                                'hsm.HsmWithQueues.signal_callback', 'hsm.HsmWithQueues.parent_callback'])
@@ -170,7 +170,7 @@ def t_register_signal_callback(first):
         heap0 = dict(c.heap)
         f = method(it, chart, 'register_signal_callback')
         out = run_body(it, f, [st, SInt(sig), fn])
-        c.prove('register_signal_callback:post/returns-normally', out.raised is None, tags=('C17',))
+        c.prove('register_signal_callback:post/returns-normally', out.raised is None, tags=('C17', 'C02'))
         if out.raised is not None:
             return
         lk1 = c.read(chart, '_lookup')
@@ -179,20 +179,20 @@ def t_register_signal_callback(first):
         ihas1, imap1 = _dict_view(c, inner1)
         key = sval(box(sig))
         c.prove('register_signal_callback:invariant/every-state-has-its-own-row-object', registry_well_formed(c, lk1.e),
-                tags=('C17',))
+                tags=('C17', 'C02'))
         c.prove('register_signal_callback:post/the-callback-is-registered-for-that-state-and-signal',
-                z3.And(z3.Select(has1, nv), z3.Select(ihas1, key), z3.Select(imap1, key) == fn.e), tags=('C17',))
+                z3.And(z3.Select(has1, nv), z3.Select(ihas1, key), z3.Select(imap1, key) == fn.e), tags=('C17', 'C02'))
         k = z3.Const('k!reg', StrV)
         n2 = z3.Const('n!reg', StrV)
         if not first:
-            c.prove('register_signal_callback:frame/the-registry-object-is-kept', lk1.e == lk.e, tags=('C17',))
+            c.prove('register_signal_callback:frame/the-registry-object-is-kept', lk1.e == lk.e, tags=('C17', 'C02'))
             c.prove('register_signal_callback:frame/other-signals-of-that-state-keep-their-callbacks',
                     z3.Implies(had_state, z3.ForAll([k], z3.Implies(k != key, z3.And(
                         z3.Select(ihas1, k) == z3.Select(ihas0, k),
-                        z3.Implies(z3.Select(ihas0, k), z3.Select(imap1, k) == z3.Select(imap0, k)))))), tags=('C17',))
+                        z3.Implies(z3.Select(ihas0, k), z3.Select(imap1, k) == z3.Select(imap0, k)))))), tags=('C17', 'C02'))
             c.prove('register_signal_callback:frame/a-state-registered-for-the-first-time-has-only-this-entry',
                     z3.Implies(z3.Not(had_state), z3.ForAll([k], z3.Implies(k != key, z3.Not(z3.Select(ihas1, k))))),
-                    tags=('C17',))
+                    tags=('C17', 'C02'))
             old_inner = z3.Select(map0, n2)
             oh0 = z3.Select(heap0['$has'], old_inner) if '$has' in heap0 else None
             c.prove('register_signal_callback:frame/other-states-keep-their-rows',
@@ -202,16 +202,16 @@ def t_register_signal_callback(first):
                             z3.Select(map1, n2) == z3.Select(map0, n2),
                             z3.Select(c.harr('$has'), z3.Select(map0, n2)) == z3.Select(heap0['$has'], z3.Select(map0, n2)),
                             z3.Select(c.harr('$map'), z3.Select(map0, n2)) == z3.Select(heap0['$map'], z3.Select(map0, n2))))))),
-                    tags=('C17',))
+                    tags=('C17', 'C02'))
         else:
             c.prove('register_signal_callback:first/no-other-state-is-given-a-row',
-                    z3.ForAll([n2], z3.Implies(n2 != nv, z3.Not(z3.Select(has1, n2)))), tags=('C17',))
+                    z3.ForAll([n2], z3.Implies(n2 != nv, z3.Not(z3.Select(has1, n2)))), tags=('C17', 'C02'))
             inner_keys = [sval(box(z3.IntVal(it.w.signals[s]))) for s in ('ENTRY_SIGNAL', 'INIT_SIGNAL', 'EXIT_SIGNAL')]
             c.prove('register_signal_callback:first/entry-init-exit-are-blocked-by-default-or-by-the-callback',
-                    z3.And([z3.Select(ihas1, kk) for kk in inner_keys]), tags=('C17',))
+                    z3.And([z3.Select(ihas1, kk) for kk in inner_keys]), tags=('C17', 'C02'))
             c.prove('register_signal_callback:first/nothing-else-is-registered',
                     z3.ForAll([k], z3.Implies(z3.And(k != key, *[k != kk for kk in inner_keys]), z3.Not(z3.Select(ihas1, k)))),
-                    tags=('C17',))
+                    tags=('C17', 'C02'))
             # the defaults behave as `return HANDLED`: run each of them
             for s, kk in zip(('ENTRY_SIGNAL', 'INIT_SIGNAL', 'EXIT_SIGNAL'), inner_keys):
                 if not c.branch(key != kk, 'default-kept-for-' + s):
@@ -219,7 +219,7 @@ def t_register_signal_callback(first):
                 cands = [(r, f_) for r, f_ in it.w._funcrefs.values()
                          if f_.info.path.startswith('hsm.HsmWithQueues.register_signal_callback.')]
                 ok = z3.Or([z3.Select(imap1, kk) == r for r, _ in cands]) if cands else z3.BoolVal(False)
-                c.prove('register_signal_callback:first/default-for-%s-is-a-function-defined-here' % s, ok, tags=('C17',))
+                c.prove('register_signal_callback:first/default-for-%s-is-a-function-defined-here' % s, ok, tags=('C17', 'C02'))
                 if len(cands) != 1:
                     continue
                 d = cands[0][1]
@@ -228,7 +228,7 @@ def t_register_signal_callback(first):
                 o2 = run_body(it, d, [chart, e])
                 c.prove('register_signal_callback:first/default-for-%s-returns-handled-and-does-nothing' % s,
                         z3.And(z3.BoolVal(o2.raised is None), c.to_int(o2.value) == it.w.statuses['HANDLED'],
-                               c.hget(c.read(chart, 'temp'), 'fun') == tf0), tags=('C17',))
+                               c.hget(c.read(chart, 'temp'), 'fun') == tf0), tags=('C17', 'C02'))
         c.cover('register_signal_callback:cover')
     return Target('register_signal_callback[%s]' % ('first-registration' if first else 'later-registration'), run,
                   ['hsm.HsmWithQueues.register_signal_callback'])
@@ -246,22 +246,22 @@ def t_register_parent(first):
         has0, map0 = _dict_view(c, pr.e)
         f = method(it, chart, 'register_parent')
         out = run_body(it, f, [st, parent])
-        c.prove('register_parent:post/returns-normally', out.raised is None, tags=('C17',))
+        c.prove('register_parent:post/returns-normally', out.raised is None, tags=('C17', 'C02'))
         if out.raised is not None:
             return
         pr1 = c.read(chart, '_parents')
         has1, map1 = _dict_view(c, pr1.e)
         c.prove('register_parent:post/the-parent-is-recorded-under-the-state-name',
-                z3.And(z3.Select(has1, nv), z3.Select(map1, nv) == parent.e), tags=('C17',))
+                z3.And(z3.Select(has1, nv), z3.Select(map1, nv) == parent.e), tags=('C17', 'C02'))
         n2 = z3.Const('n!reg', StrV)
         if first:
             c.prove('register_parent:frame/no-other-state-gets-a-parent',
-                    z3.ForAll([n2], z3.Implies(n2 != nv, z3.Not(z3.Select(has1, n2)))), tags=('C17',))
+                    z3.ForAll([n2], z3.Implies(n2 != nv, z3.Not(z3.Select(has1, n2)))), tags=('C17', 'C02'))
         else:
-            c.prove('register_parent:frame/the-registry-object-is-kept', pr1.e == pr.e, tags=('C17',))
+            c.prove('register_parent:frame/the-registry-object-is-kept', pr1.e == pr.e, tags=('C17', 'C02'))
             c.prove('register_parent:frame/other-states-keep-their-parent',
                     z3.ForAll([n2], z3.Implies(n2 != nv, z3.And(z3.Select(has1, n2) == z3.Select(has0, n2),
-                                                                z3.Select(map1, n2) == z3.Select(map0, n2)))), tags=('C17',))
+                                                                z3.Select(map1, n2) == z3.Select(map0, n2)))), tags=('C17', 'C02'))
         c.cover('register_parent:cover')
     return Target('register_parent[%s]' % ('first' if first else 'later'), run, ['hsm.HsmWithQueues.register_parent'])
 
